@@ -772,7 +772,7 @@ funcexpr(struct func *f, struct expr *e)
 		v = funcinst(f, e->op == TINC ? IADD : ISUB, qbetype(t).base, l, r);
 		if (t->kind == TYPEBOOL)
 			v = funcinst(f, ICNEW, 'w', v, mkintconst(0));
-		v = funcstore(f, e->type, e->qual, lval, v);
+		v = funcstore(f, e->type, e->base->qual, lval, v);
 		return e->u.incdec.post ? l : v;
 	case EXPRCALL:
 		argvals = xreallocarray(NULL, e->u.call.nargs, sizeof(argvals[0]));
